@@ -30,6 +30,27 @@ CHECKS.update({
          "Configurations whose fault-free baseline does not work (auto-detection under short reads on non-bufio readers) are skipped and named in the evidence; that behaviour is C08's subject.", "5 C18"),
 })
 
+CHECKS.update({
+ "C02": (MC, "bounded-exhaustive enumeration of packetisations (deviation bound on chunk sizes) and of all order-preserving PID merges, each stream demuxed by the real Demuxer and compared with the units the reference multiplexer packed",
+         "11 unit kinds (bounded/unbounded PES, PES with adaptation field, PAT 1/3 sections, PMT 1 packet / 6 packets 2 sections, SDT, NIT, EIT, TOT) x pointer fields x trailing stuffing x AF-vs-0xFF padding x flush by next unit or EOF x every single chunk-size deviation (all c in 1..183 at every packet) and pairs over a boundary alphabet; all merges of three PIDs; 8 PIDs drained at EOF; for PAT/PMT a counting reader checks that the table is returned when its final packet has been read.",
+         "Trusted: reference multiplexer and encoders in /verif/ref and /verif/checks/streams.go. Well-formed domain per DESIGN.md C02 (a PUSI packet contains the first byte of the unit's last section).", "5 C02"),
+ "C06": (MC, "exhaustive fault-set enumeration on base streams (every single/double duplicate, deletion, burst, pair of faults) plus all packet sequences up to a length bound over a 26-symbol alphabet, with a relational / safety oracle on the real Demuxer's output",
+         "(a) clean vs faulted output related exactly as the statement says (duplicates: PES PIDs identical, PSI PIDs only repeats; loss: subsequence, other PIDs identical, missing units only those that lost a packet or precede a gap), including 15-packet bursts on one PID; (b) every sequence of <= 4 (quick) / 5 (thorough) packets over {counter delta dup/+1/+2} x PUSI x {payload, AF-only, TEI, discontinuity indicator} + a second PID: every delivered unit must be a gap-free, duplicate-free run starting at a PUSI packet.",
+         "Trusted: the driver-side bookkeeping of which unit each packet belongs to. PMT output is exempt when a PAT packet is deleted (dependence stated in C07).", "5 C06"),
+ "C07": (MC, "exhaustive enumeration of all order-preserving merges (schedules) of five per-PID packet sequences, all insertion positions of null/AF-only/TEI packets, all single-byte corruptions of one PID, on the real Demuxer, compared per PID with that PID's solo run",
+         "138 600 (quick) / 554 400 (thorough) schedules of PES A, PES B, SDT, PAT, PMT; per PID the delivered sequence must equal the sequence the real Demuxer delivers for that PID's packets alone; corruption of PID A (every byte x 6 mutation classes + flag flips) must leave all other PIDs unchanged.",
+         "PMT PID compared only in schedules where the PAT precedes it. Corruptions never change the PID field.", "5 C07"),
+ "C08": (MC, "enumeration of read schedules (every fixed chunk size 1..400; deviation-bounded short-read exploration at every Read call) x reader kind x explicit/auto x packet size 188+k on the real Demuxer, compared with the bytes.Reader/188 baseline",
+         "For every configuration both the NextPacket and the NextData sequence must equal the baseline for every schedule; 188+k framings (k up to 16) must equal the 188 form; plain readers with auto-detection must equal the stream minus the two packets detection consumes.",
+         "Deviation bound 2 on short reads; two base streams (10 and 7 packets).", "5 C08"),
+ "C19": (MC, "exhaustive enumeration of all 2^n per-packet skip decisions and structured predicates, and of parser modes (observer, replacer, failing at every unit), on the real Demuxer, compared with the run on the physically filtered stream",
+         "Skipper == deletion for every decision vector through NextPacket and NextData; the predicate's call log must equal the reference decoding of every packet once, in order, with header and adaptation field fully parsed; the parser must see exactly the unit partition, skip=false must not change the output and skip=true must substitute exactly the parser's data.",
+         "Streams of 7-10 packets (2^n vectors each).", "5 C19"),
+ "C20": (MC, "exhaustive enumeration of Demuxer API histories over {NextPacket, NextData, Rewind} up to a depth bound plus every k / (k1,k2) calls before rewinds, on the real Demuxer over a seekable reader; differential oracle against a fresh Demuxer",
+         "After the final Rewind (which must return (0, nil)) the complete NextData and NextPacket sequences must equal a fresh Demuxer's, for explicit and auto-detected packet size, whatever was consumed before (mid-unit, buffered sections).",
+         "Streams with PAT before PMT; bytes.Reader as the seekable reader.", "5 C20"),
+})
+
 NOT_YET = {}
 
 def main():
